@@ -73,7 +73,7 @@ CHECKS = {
          "DESIGN.md §4 C16"),
  "C17": ("child-process monitors: recover() panic monitor, per-call fstat on fd 1/2, per-case watchdog with replay confirmation; reflection-driven calls of every exported method with type-directed hostile arguments; liveness canaries",
          "Exploration: every exported method of every container, iterator, node and entry type (564 found by reflection) is called with hostile indices, empty/long variadics, absent keys, hostile JSON, the receiver itself, on empty and populated containers; plus the state-deep workloads of the other properties under the output monitor. A panic, a fatal error, a byte on stdout/stderr or a case that stops making progress (confirmed by replay) is a violation. Holds on the executed calls only.",
-         "Documented use only (valid comparators, pure callbacks, iterator reads after successful moves); non-termination decided by a 30 s per-case watchdog confirmed by replay with 60 s.",
+         "Documented use only (valid comparators, pure callbacks, iterator reads after successful moves); non-termination decided by a 60 s per-case watchdog confirmed by replay with 120 s.",
          "DESIGN.md §4 C17"),
  "C18": ("Go race detector (-race build) over concurrent read-only catalogues + sequential-answer comparison + state fingerprints; RWMutex histories checked in lock order and with porcupine",
          "Exploration: 2-32 goroutines run the whole read-only catalogue of each of the 21 containers concurrently with no monitor-side synchronisation between barrier and join; every race report with a library frame, every answer differing from the sequential one and every state change is a violation; reader/writer histories under a caller-side RWMutex are checked exactly (epoch order) and with porcupine. Holds on the executed accesses and histories only.",
